@@ -588,7 +588,7 @@ func ZZVerifC03() {
 	bounds[mcrt.Order] = 1
 	bounds[mcrt.Cancel] = 1
 	total := 2
-	budget := 100 * gotime.Second
+	budget := 200 * gotime.Second
 	if thorough {
 		bounds[mcrt.Fault] = 2
 		bounds[mcrt.Preempt] = 2
